@@ -464,6 +464,10 @@ struct OverloadSys : StreamBase {
         ov.push_back(OvOp{"<< \"\"", [](SS &s) { s << ""; }, ""});
         ov.push_back(OvOp{"<< const wchar_t*", [](SS &s) { s << wtxt.c_str(); }, txt});
         ov.push_back(OvOp{"<< (const wchar_t*)nullptr", [](SS &s) { s << (const wchar_t *)nullptr; }, ""});
+        ov.push_back(OvOp{"<< (const char16_t*)nullptr", [](SS &s) { s << (const char16_t *)nullptr; }, ""});
+        ov.push_back(OvOp{"<< (const char32_t*)nullptr", [](SS &s) { s << (const char32_t *)nullptr; }, ""});
+        ov.push_back(OvOp{"<< (const char8_t*)nullptr", [](SS &s) { s << (const char8_t *)nullptr; }, ""});
+        ov.push_back(OvOp{"<< std::filesystem::path", [](SS &s) { s << std::filesystem::path(std::u8string(u8s)); }, txt});
         ov.push_back(OvOp{"<< const char16_t*", [](SS &s) { s << u16txt.c_str(); }, txt});
         ov.push_back(OvOp{"<< const char32_t*", [](SS &s) { s << u32txt.c_str(); }, txt});
         ov.push_back(OvOp{"<< const char8_t*", [](SS &s) { s << u8s.c_str(); }, txt});
